@@ -449,12 +449,16 @@ theorem C20_src_extract (d : D) :
       DeferredSkel.Guard.holds]
   · simp [DeferredSkel.extractI, extractOp, Generated.DeferredSrc.extractResult, h, DeferredSkel.firstArm, DeferredSkel.Guard.holds]
 
-/-- `SynchronousDeferredRunTest._run_user` is `maybeDeferred`, `addErrback(self._got_user_failure)`, `extract_result`, and the errback
+/-- `SynchronousDeferredRunTest._run_user` has the signature `(self, function, /, *args, **kwargs)` - no keyword name of a cleanup can
+collide with its own parameters (seed C20-g) -, is `maybeDeferred` of a THUNK calling the user's function with the user's arguments
+(none of them reaches `maybeDeferred`'s own parameter `f`), `addErrback(self._got_user_failure)`, `extract_result`, and the errback
 `_got_user_failure` reports EVERY failure it is given as the user's exception - no exception class is let through (seed C20-f) -/
 theorem C20_src_run_user (b : Beh) :
-    DeferredSkel.runUserI Generated.DeferredSrc.runUser Generated.DeferredSrc.gotUserFailure b = some (runUser b) := by
+    DeferredSkel.runUserI Generated.DeferredSrc.runUserSig Generated.DeferredSrc.runUser Generated.DeferredSrc.gotUserFailure b
+      = some (runUser b) := by
+  have e0 : Generated.DeferredSrc.runUserSig = DeferredSkel.refRunUserSig := by decide
   have e : Generated.DeferredSrc.runUser = DeferredSkel.refRunUser := by decide
   have e2 : Generated.DeferredSrc.gotUserFailure = DeferredSkel.refGotUserFailure := by decide
-  rw [e, e2]; exact DeferredSkel.runUserI_ref b
+  rw [e0, e, e2]; exact DeferredSkel.runUserI_ref b
 
 end TTV.Props.C20
